@@ -416,6 +416,9 @@ func (s *Solver) Solve(obs []*Obligation, thorough bool, timeout int, jobs int) 
 				return
 			}
 			ob.Result, ob.Raw, ob.Model = r0, raw0, raw0
+			if ob.Raw == "" {
+				ob.Raw = "(no solver output)"
+			}
 		}(i, ob)
 	}
 	wg.Wait()
